@@ -40,9 +40,9 @@ CLAIMED = {
  'C11': ('PBT: hypothesis union generator (rich, core+ignore text/bytes, operator tables, deep nesting); differential across 9 production variants incl. emitted source imported by a separate -I -S interpreter and an extension executed next to its parent',
          'Generated-input search: each description is compiled unnamed, unnamed again, with include_source, named, named with include_source; the emitted source of the unnamed and named variants is saved and imported by a separate interpreter started with -I -S whose sys.path (asserted) holds only the standard library and the temp directory; a grammar extending the named one runs in memory and as emitted source next to its parent. All variants must agree on outcome class, value and position for module-level parse and up to 4 further entries on all inputs of length <= 3 plus longer ones; the stand-alone process must not have imported outsourcer/sourcer.',
          'Values compared by canonical structure; one stand-alone interpreter serves a batch of descriptions.'),
- 'C12': ('PBT/differential: 3-generation bootstrap history (gen1 accepts grammar.txt; gen1 installed in a scratch copy regenerates, in a separate process under another hash seed, to exactly its own text) + shipped vs regenerated parser on repository corpus, generated descriptions in all spellings and hypothesis-corrupted descriptions',
+ 'C12': ('PBT/differential: 3-generation bootstrap history (gen1 accepts grammar.txt; gen1 installed in a scratch copy regenerates, in a separate process under another hash seed, to exactly its own text) + shipped vs regenerated parser on repository corpus, generated descriptions in all spellings, hypothesis-corrupted descriptions and coverage-guided atheris/libFuzzer differential fuzzing',
          'Generated-input search: the shipped sourcer/parser.py (gen0) and the parser compiled from grammar.txt by the current tree (gen1) must give the same repr(tree), or the same error class at the same index, on every description found in the repository at run time (tests, README, docs, examples, grammar.txt: 61 on the pinned tree), on descriptions rendered by the generators in random spellings/layouts (rich, core, operator tables, headers with extends) and on 1-3-edit corruptions of those (delete, insert punctuation/keywords, transpose, truncate, swap lines, duplicate/drop spans); plus the bootstrap history gen0 -> gen1 -> gen2 with gen1 text == gen2 text.',
-         'gen0 vs gen1 is behavioural, not textual. Limit: an extension of the accepted language by a brand-new token is only found if a corruption happens to produce that token (no coverage guidance; the atheris extension was not built).'),
+         'gen0 vs gen1 is behavioural, not textual. An atheris/libFuzzer target (tooling venv, 25 s quick / 8 x 7 min thorough) adds coverage-guided search with the same oracle inside. Limit: an extension of the accepted language by a brand-new token (a mutant accepting `let x <- a in b`) was found neither by the corruptions nor by 1.3 million coverage-guided executions.'),
  'C13': ('PBT (stateful): hypothesis RuleBasedStateMachine over create-base / derive / parse histories (chains <= 3, siblings, dotted names, ignore in base and/or derived); oracle = AST-level flattening compiled stand-alone + reference interpreter; untouched-parent probe invariant',
          'Generated-history search: a rule-based state machine creates named base grammars, derives from any existing module (each rule inherited, overridden, or overridden using super; new rules; own ignore declarations) and parses through any module and any visible parameterless rule/class in any order. Every parse must equal the parse through the flattened stand-alone grammar (late binding = most-derived definition, super.R = private copy of the parent level\'s R, ignore declarations united) compiled by sourcer, and the reference interpreter on it; after every operation every existing module must still answer 15 probe inputs as when it was created.',
          'Derived grammars add ignore patterns only when an ancestor has some; inherited entry points that reach an override are excluded (known finding F13e, witness replayed).'),
